@@ -22,11 +22,20 @@
      descriptor consumes at least one byte, so a count above the number of remaining bytes must fail: the model answers
      None at once (same device as ThriftWire.skip).
 
-   NOT modelled (the walk is the converter under these options only): EnableValueMapping (api.js_conv), EnableThriftBase,
-   ConvertException, EnableHttpMapping, Write{Require,Default,Optional}Field, descriptors built with SetOptionalBitmap,
-   the pooled / caller-supplied output buffer (DoInto).  Option bits as in T2J.v. *)
+   * api.js_conv under EnableValueMapping (thrift/annotation/value_mapping.go apiJSConv.Read / appendInt): a byte / i16 / i32 /
+     i64 / double / string field between quotes (byte by ByteAsUint8 since /repo c24267f), a LIST field element-wise by the WIRE
+     element type; every other type an error.
+   * WriteRequireField / WriteDefaultField (handleUnsets + RequiresBitmap.HandleRequires): at STOP the bits still set are
+     scanned in ascending field id; a required field is written under WriteRequireField and is an error otherwise, a default
+     one is written under WriteDefaultField; key = alias, value = writeDefaultOrEmpty (false, 0, "", [], {}; no IDL default
+     values).  WriteOptionalField has no effect: optional fields are never in the bitmap without SetOptionalBitmap.
+   * at the root (do): a response-base field under EnableThriftBase with a BaseResp in the context is skipped as a STRUCT and
+     produces no member ([t2j_walk_root]; what FastRead stores into the context is compared by check 301 only).
+
+   NOT modelled: ConvertException, EnableHttpMapping, descriptors built with SetOptionalBitmap, IDL default values,
+   the pooled / caller-supplied output buffer (DoInto).  Option bits as in T2J.v / T2JUnset.v. *)
 From Coq Require Import ZArith List Bool.
-From DG Require Import ProtoWireRef ThriftWire Json Num Base64 T2J.
+From DG Require Import ProtoWireRef ThriftWire Json Num Base64 T2J T2JUnset.
 Import ListNotations.
 Local Open Scope Z_scope.
 
@@ -111,8 +120,86 @@ Section Walk.
 
   Definition sep (comma : bool) : list Z := if comma then [44] else [].
 
+  (* thrift/annotation/value_mapping.go appendInt: one scalar between quotes (integers and strings exactly as a map key) *)
+  Definition walk_vm_scalar (t : Z) (bs : list Z) : option (list Z * list Z) :=
+    if t =? T_DOUBLE then
+      match rd_uint 8 bs with
+      | Some (b, r) => if f64_is_finite b then Some (34 :: fd b ++ [34], r) else None
+      | None => None
+      end
+    else walk_key_t t bs.
+
+  (* apiJSConv.Read, LIST case: n elements by the wire element type (the code writes the comma after every element but the
+     last: the same text as a comma before every element but the first) *)
+  Fixpoint walk_vm_elems (n : nat) (et : Z) (comma : bool) (bs : list Z) : option (list Z * list Z) :=
+    match n with
+    | O => Some ([93], bs)
+    | S n' =>
+      match walk_vm_scalar et bs with
+      | None => None
+      | Some (txt, r) =>
+        match walk_vm_elems n' et true r with
+        | None => None
+        | Some (tl, r2) => Some (sep comma ++ txt ++ tl, r2)
+        end
+      end
+    end.
+
+  (* apiJSConv.Read on a field whose descriptor is d *)
+  Definition walk_vm (d : tdesc) (bs : list Z) : option (list Z * list Z) :=
+    match d with
+    | DList false _ =>
+      match bs with
+      | et :: r =>
+        if negb (valid_ttype et) then None else
+        match skip_count r with
+        | None => None
+        | Some (sz, r2) =>
+          if sz >? zlen r2 then None
+          else match walk_vm_elems (Z.to_nat sz) et false r2 with
+               | Some (t, r3) => Some (91 :: t, r3)
+               | None => None
+               end
+        end
+      | [] => None
+      end
+    | _ => walk_vm_scalar (desc_type d) bs
+    end.
+
+  (* writeDefaultOrEmpty without IDL default values *)
+  Definition zero_text (d : tdesc) : list Z :=
+    match d with
+    | DScalar t => if t =? T_BOOL then lit_false else if t =? T_DOUBLE then fd 0 else fmt_int 0
+    | DString _ => [34; 34]
+    | DStruct _ => [123; 125]
+    | DMap _ _ => [123; 125]
+    | DList _ _ => [91; 93]
+    end.
+
+  (* handleUnsets at STOP: fs in ascending id; returns the text up to and including the closing brace *)
+  Fixpoint walk_unsets (fs : list (fmeta * tdesc)) (bm : list Z) (comma : bool) : option (list Z) :=
+    match fs with
+    | [] => Some [125]
+    | f :: r =>
+      if negb (bm_isset bm (f_id (fst f))) then walk_unsets r bm comma
+      else if f_req (fst f) =? 1 then
+        (if o_write_required o
+         then match walk_unsets r bm true with
+              | Some tl => Some (sep comma ++ quote_ref (f_key (fst f)) ++ 58 :: zero_text (snd f) ++ tl)
+              | None => None
+              end
+         else None)
+      else if (f_req (fst f) =? 0) && o_write_default o then
+        match walk_unsets r bm true with
+        | Some tl => Some (sep comma ++ quote_ref (f_key (fst f)) ++ 58 :: zero_text (snd f) ++ tl)
+        | None => None
+        end
+      else walk_unsets r bm comma
+    end.
+
   Section Loops.
     Variable rec : tdesc -> list Z -> option (list Z * list Z).   (* doRecurse one nesting level down *)
+    Variable bx : fmeta -> bool.   (* fields extracted into the context instead of being converted (root only) *)
 
     (* the field loop of a struct, after the opening brace; returns the text up to and including the closing brace.
        fuel: any number > number of bytes (a field takes at least 3 bytes) *)
@@ -125,7 +212,7 @@ Section Walk.
         | [] => None
         | t :: r =>
           if negb (valid_ttype t) then None
-          else if t =? 0 then (if bm_missing fs bm then None else Some ([125], r))
+          else if t =? 0 then match walk_unsets (sort_flds fs) bm comma with Some tl => Some (tl, r) | None => None end
           else
             match rd_int 2 r with
             | None => None
@@ -138,7 +225,13 @@ Section Walk.
                      | Some r3 => walk_fields f fs comma bm r3
                      end
               | Some fl =>
-                match rec (snd fl) r2 with
+                if bx (fst fl) then
+                  match skip_go T_STRUCT r2 with
+                  | None => None
+                  | Some r3 => walk_fields f fs comma (bm_clear id bm) r3
+                  end
+                else
+                match (if o_value_mapping o && f_jsconv (fst fl) then walk_vm (snd fl) r2 else rec (snd fl) r2) with
                 | None => None
                 | Some (txt, r3) =>
                   match walk_fields f fs true (bm_clear id bm) r3 with
@@ -195,7 +288,7 @@ Section Walk.
       match n with
       | O => None
       | S n' =>
-        match walk_fields (t2j_walk_gen n') (S (length bs)) fs false (bm_init fs) bs with
+        match walk_fields (t2j_walk_gen n') (fun _ => false) (S (length bs)) fs false (bm_init fs) bs with
         | Some (t, r) => Some (123 :: t, r)
         | None => None
         end
@@ -243,12 +336,24 @@ Section Walk.
     end.
 End Walk.
 
+(* do: a root struct is walked by the same loop with the response base extracted; any other root is doRecurse *)
+Definition root_bx (o : Z) (m : fmeta) : bool := o_thrift_base o && o_base_in_ctx o && f_respbase m.
+Definition t2j_walk_root (fd : Z -> list Z) (o : Z) (n : nat) (d : tdesc) (bs : list Z) : option (list Z * list Z) :=
+  match d, n with
+  | DStruct fs, S n' =>
+    match walk_fields fd o (t2j_walk_gen fd o n') (root_bx o) (S (length bs)) fs false (bm_init fs) bs with
+    | Some (t, r) => Some (123 :: t, r)
+    | None => None
+    end
+  | _, _ => t2j_walk_gen fd o n d bs
+  end.
+
 (* the walk with the spec's double lexeme (the exact decimal of the bits) *)
 Definition t2j_walk (n : nat) (o : Z) (d : tdesc) (bs : list Z) : option (list Z * list Z) :=
   t2j_walk_gen f64_exact_lexeme o n d bs.
 
-(* the options under which the converter IS this walk: no value mapping; at the root no thrift base extraction and no
-   exception conversion (HTTP mapping and the write options have no bit in the case format: always off) *)
+(* the options under which the converter IS the doRecurse walk of [t2j_walk] also at the root: no thrift base extraction
+   and no exception conversion (with thrift base: [t2j_walk_root]; ConvertException is not modelled) *)
 Definition walk_opts (o : Z) : bool :=
   negb (o_value_mapping o) && negb (o_thrift_base o && o_base_in_ctx o) && negb (o_convert_exception o).
 
